@@ -59,6 +59,7 @@ class Cfg:
         self.far_length = True           # fields between a length field and its target
         self.inline_rich = True          # inline objects may hold references, match fields, MetaData-typed fields
         self.meta_pad_attr = True        # padding attributes on MetaData-typed fixed strings
+        self.def_order = True            # top-level definitions in any order (MetaData / options after the packets using them)
         self.__dict__.update(kw)
 
 
@@ -191,12 +192,12 @@ def gen_program(rng, cfg=None):
                 if ktype == "string":
                     fields.append({"kind": "dyn", "name": kname, "spelling": "string", "repeat": False, "doc": None})
                 else:
-                    fields.append({"kind": "scalar", "name": kname, "type": ktype, "alias": False, "repeat": False, "doc": None})
+                    fields.append({"kind": "scalar", "name": kname, "type": ktype, "alias": ktype in ALIAS and rng.random() < 0.3, "repeat": False, "doc": None})
                 if cfg.allow_length and i == 0 and not used_len and rng.random() < 0.6:
                     used_len = True
                     lname = fnames[j]
                     j += 1
-                    fields.append({"kind": "length", "name": lname, "type": rng.choice(UNSIGNED), "target": mname,
+                    fields.append({"kind": "length", "name": lname, "type": rng.choice(UNSIGNED), "alias": rng.random() < 0.3, "target": mname,
                                    "prefixed": rng.random() < 0.5, "doc": None})
                     if cfg.far_length and rng.random() < 0.3:
                         # something between the length field and its target
@@ -209,7 +210,7 @@ def gen_program(rng, cfg=None):
                 rep = cfg.allow_repeat and rng.random() < 0.3
                 if cfg.allow_length and i == 0 and not used_len and not rep and rng.random() < 0.3:
                     used_len = True
-                    fields.append({"kind": "length", "name": name, "type": rng.choice(UNSIGNED),
+                    fields.append({"kind": "length", "name": name, "type": rng.choice(UNSIGNED), "alias": rng.random() < 0.3,
                                    "target": (fnames[j] if named else t), "prefixed": rng.random() < 0.5, "doc": None})
                     name = fnames[j]
                     j += 1
@@ -221,7 +222,7 @@ def gen_program(rng, cfg=None):
             elif cfg.allow_inline and r < 0.40:
                 fields.append(gen_inline(rng, cfg, name, cfg.inline_depth, later, metas))
             elif cfg.allow_checksum and r < 0.47:
-                fields.append({"kind": "checksum", "name": name, "type": rng.choice(INTS if rng.random() < 0.3 else ["u32", "u16", "u8", "u64"]),
+                fields.append({"kind": "checksum", "name": name, "type": rng.choice(INTS if rng.random() < 0.3 else ["u32", "u16", "u8", "u64"]), "alias": rng.random() < 0.3,
                                "algo": rng.choice(['"CRC32"', '"SUM8"', '"XOR"', '"crc32"', '"Adler32"']), "prefixed": rng.random() < 0.5, "doc": None})
             else:
                 f = gen_simple_field(rng, cfg, name, metas)
@@ -244,6 +245,10 @@ def gen_program(rng, cfg=None):
                         if g.get("target") == old_name:
                             g["target"] = m["name"]
         prog["packets"].append({"name": pn, "root": i == 0, "fields": fields})
+    if cfg.def_order and rng.random() < 0.3:
+        # the grammar takes definitions in any order and the visitor makes three passes
+        # (MetaData, options, packets), so the order carries no meaning
+        prog["def_order"] = rng.choice(["meta-last", "options-last", "reversed", rng.randrange(1 << 30)])
     return prog
 
 
@@ -292,7 +297,7 @@ def gen_inline(rng, cfg, name, depth, later=(), metas=()):
             if ktype == "string":
                 fields.append({"kind": "dyn", "name": nm + "Key", "spelling": "string", "repeat": False, "doc": None})
             else:
-                fields.append({"kind": "scalar", "name": nm + "Key", "type": ktype, "alias": False, "repeat": False, "doc": None})
+                fields.append({"kind": "scalar", "name": nm + "Key", "type": ktype, "alias": ktype in ALIAS and rng.random() < 0.3, "repeat": False, "doc": None})
             fields.append({"kind": "match", "name": nm + "Body", "key": nm + "Key", "pairs": pairs})
         else:
             fields.append(gen_simple_field(rng, cfg, nm, list(metas) if rich else [], in_inline=True))
@@ -364,7 +369,7 @@ def render_field(f, L, ind, with_attrs=True):
     if k == "inline":
         body = "".join(L.nl(ind + 1) + render_field(x, L, ind + 1, False) for x in f["fields"])
         return s + rep + f["name"] + L.sp() + "{" + body + L.nl(ind) + "},"
-    ty = "" if f.get("typeless") else f.get("type", "") + L.sp()
+    ty = "" if f.get("typeless") else (ALIAS[f["type"]] if f.get("alias") else f.get("type", "")) + L.sp()
     if k == "length":
         if f["prefixed"]:
             return s + ty + f["name"] + doc + ","
@@ -400,6 +405,18 @@ def render(prog, L=None):
     for p in prog["packets"]:
         body = "".join(L.nl(1) + render_field(f, L, 1) for f in p["fields"])
         parts.append(("root" + L.sp() if p["root"] else "") + "packet" + L.sp() + p["name"] + L.sp() + "{" + body + L.nl(0) + "}")
+    o = prog.get("def_order")
+    if o is not None:
+        no = 1 if prog["options"] else 0
+        nm = len(prog["metas"])
+        if o == "meta-last":
+            parts = parts[:no] + parts[no + nm:] + parts[no:no + nm]
+        elif o == "options-last":
+            parts = parts[no:] + parts[:no]
+        elif o == "reversed":
+            parts = parts[::-1]
+        else:
+            random.Random(o).shuffle(parts)
     return (L.nl(0) + ("\n" if not L.wild else "")).join(parts) + "\n"
 
 
